@@ -38,6 +38,8 @@ import LiquerProofs.Lemmas.EvalCor
 import LiquerProofs.Lemmas.EvalExample
 import LiquerProofs.Lemmas.ConcFile3
 import LiquerProofs.Lemmas.ConcFileT3
+import LiquerProofs.Lemmas.ConcFileSplit
+import LiquerProofs.Lemmas.ConcFileSplitT
 
 namespace Liquer.C12
 
@@ -723,6 +725,362 @@ example (n : Nat) :
 end Liquer.C12
 
 
+/-! ## file-operation granularity: the reader as TWO file operations
+
+The theorems of the two sections above let the reader look at ONE directory (an atomic `get`).  In the code `FileCache.get(key)`
+first reads and decodes the metadata file (a miss unless the status is `ready`) and THEN — a separate file operation, other threads
+may run in between — reads and decodes the data file of the type the metadata names; `StoreCache.get` on a `FileStore` likewise reads
+the metadata file first, then the node.  Model: `LiquerModel/ConcFileSplit.lean` — `FileC.getSplit c dM dD k` is `FileC.get` with the
+metadata file looked up in `dM` and the data file in `dD` (`getSplit c d d k = get c d k` by `rfl`), `readSCSplit deM deD tM tD p`
+is `readSC` with the metadata file looked up in `tM` and the node in `tD`.  The reader reads the metadata after `n1` file operations
+of the interleaving and the data after `n2 ≥ n1` of them: `dM = runPrefix n1 l d0`, `dD = runPrefix n2 l d0`.  (The existence tests
+`os.path.exists` / `contains` before each read are further file operations; a file that vanishes between test and read raises,
+which `get` turns into a miss: every placement of the tests yields the answer of the split reader or a miss — a miss is always among
+the allowed answers; for the test of `StoreCache._load_metadata` this is `tree_split_guard_only_misses`.)
+
+What the split reader can obtain that the atomic reader cannot: the READY metadata record the initial directory held, read before any
+writer unlinked it, together with the NEW data, published later (the fifth answer below; `file_split_reader_mixed_witness`,
+`tree_split_reader_mixed_witness`).  Everything else is as for the atomic reader; in particular a ready record of a writer is never
+paired with anything but the complete new data (the data file, once published by anybody, is absent or complete, and "published" is
+monotone along the interleaving), and the data is never truncated.  Under the soundness hypothesis — the old entry, if any, is
+complete and already holds the value the writers store (C16 + C05: one key, one value) — the fifth answer IS the old entry
+(`file_split_reader_sound`, `tree_split_reader_sound`).
+An old entry of ANOTHER type with another extension: the step list `storeStepsN` unlinks only the data file of the new type, so the
+split reader finds the old data file untouched and answers with the old entry (in the code `remove` unlinks every `data_<h>.*`, which
+can only turn this answer into a miss).
+Proof: `Lemmas/ConcFileSplit.lean` (`prefix_inv3_two`: the invariant after two prefixes, at componentwise ordered positions; `DataOK`:
+the data file of the new type is at every moment the initial one, absent, or complete), `Lemmas/ConcFileSplitT.lean` (`NodeOK`). -/
+
+namespace Liquer.C12
+open Liquer Liquer.Crash
+
+/-- **split reader, `FileCache`**: under the hypotheses of `file_writers_progress_harmless` (two store writers A, B of one key with
+equal encoded data bytes, a progress writer that never says ready, five pairwise distinct temporaries, ANY initial directory, ANY
+three-way interleaving `l`), a reader that reads the metadata file after `n1` file operations and the data file after `n2 ≥ n1`
+obtains
+  a miss, or the complete new entry with A's or with B's ready metadata, or what the atomic reader obtains from `d0`, or
+  the ready metadata record `m0` of `d0` (whose type has the extension of the new type) with the NEW bytes decoded under the type
+  `m0` names — the new value `stA.data` when `m0` names the writers' type;
+and every key with another digest reads exactly as in `d0`. -/
+theorem file_split_reader (c : FileCfg) (d0 : CDir) (stA stB : CState) (okA : CodecAt c stA) (okB : CodecAt c stB)
+    (hq : stB.metadata.query = stA.metadata.query) (hty : stB.metadata.typeId = stA.metadata.typeId)
+    (hdata : c.enc (c.serD stB.metadata.typeId stB.data) = c.enc (c.serD stA.metadata.typeId stA.data))
+    (mP : CMeta) (hPq : mP.query = stA.metadata.query) (hPdec : (c.dec (c.enc (c.serM mP))).bind c.deM = some mP)
+    (hPs : mP.status ≠ ready)
+    (a1 a2 b1 b2 tp : Nat) (hdist : [a1, a2, b1, b2, tp].Nodup) (l : List (Step FName))
+    (hl : Interleave3 (storeStepsN c (.tmp a1) (.tmp a2) stA) (storeStepsN c (.tmp b1) (.tmp b2) stB)
+      (storeMetaStepsN c (.tmp tp) mP) l) (n1 n2 : Nat) (hn : n1 ≤ n2) :
+    (FileC.getSplit c (runPrefix n1 l d0) (runPrefix n2 l d0) stA.metadata.query = none ∨
+     FileC.getSplit c (runPrefix n1 l d0) (runPrefix n2 l d0) stA.metadata.query =
+       some { metadata := { stA.metadata with status := ready }, data := stA.data } ∨
+     FileC.getSplit c (runPrefix n1 l d0) (runPrefix n2 l d0) stA.metadata.query =
+       some { metadata := { stB.metadata with status := ready }, data := stA.data } ∨
+     FileC.getSplit c (runPrefix n1 l d0) (runPrefix n2 l d0) stA.metadata.query = FileC.get c d0 stA.metadata.query ∨
+     ∃ m0 w, FileC.loadMeta c d0 (.state (c.h stA.metadata.query)) = some m0 ∧ m0.status = ready ∧
+       c.ext m0.typeId = c.ext stA.metadata.typeId ∧
+       (c.dec (c.enc (c.serD stA.metadata.typeId stA.data))).bind (c.deD m0.typeId) = some w ∧
+       (m0.typeId = stA.metadata.typeId → w = stA.data) ∧
+       FileC.getSplit c (runPrefix n1 l d0) (runPrefix n2 l d0) stA.metadata.query = some { metadata := m0, data := w }) ∧
+    ∀ k', c.h k' ≠ c.h stA.metadata.query →
+      FileC.getSplit c (runPrefix n1 l d0) (runPrefix n2 l d0) k' = FileC.get c d0 k' := by
+  obtain ⟨h, hfr⟩ := split_writers3 c d0 stA stB okA okB hq hty hdata mP hPq hPdec hPs a1 a2 b1 b2 tp hdist l hl n1 n2 hn
+  refine ⟨?_, hfr⟩
+  rcases h with h | h | h | h | ⟨m0, w, h1, h2, h3, h4, h5⟩
+  · exact Or.inl h
+  · exact Or.inr (Or.inl h)
+  · exact Or.inr (Or.inr (Or.inl h))
+  · exact Or.inr (Or.inr (Or.inr (Or.inl h)))
+  · refine Or.inr (Or.inr (Or.inr (Or.inr ⟨m0, w, h1, h2, h3, h4, fun e => ?_, h5⟩)))
+    have := okA.dataOK
+    rw [e] at h4; rw [h4] at this; exact Option.some.inj this
+
+/-- the same for two store writers without a progress writer -/
+theorem file_split_reader_two (c : FileCfg) (d0 : CDir) (stA stB : CState) (okA : CodecAt c stA) (okB : CodecAt c stB)
+    (hq : stB.metadata.query = stA.metadata.query) (hty : stB.metadata.typeId = stA.metadata.typeId)
+    (hdata : c.enc (c.serD stB.metadata.typeId stB.data) = c.enc (c.serD stA.metadata.typeId stA.data))
+    (a1 a2 b1 b2 : Nat) (hdist : [a1, a2, b1, b2].Nodup) (l : List (Step FName))
+    (hl : Interleave (storeStepsN c (.tmp a1) (.tmp a2) stA) (storeStepsN c (.tmp b1) (.tmp b2) stB) l)
+    (n1 n2 : Nat) (hn : n1 ≤ n2) :
+    (FileC.getSplit c (runPrefix n1 l d0) (runPrefix n2 l d0) stA.metadata.query = none ∨
+     FileC.getSplit c (runPrefix n1 l d0) (runPrefix n2 l d0) stA.metadata.query =
+       some { metadata := { stA.metadata with status := ready }, data := stA.data } ∨
+     FileC.getSplit c (runPrefix n1 l d0) (runPrefix n2 l d0) stA.metadata.query =
+       some { metadata := { stB.metadata with status := ready }, data := stA.data } ∨
+     FileC.getSplit c (runPrefix n1 l d0) (runPrefix n2 l d0) stA.metadata.query = FileC.get c d0 stA.metadata.query ∨
+     ∃ m0 w, FileC.loadMeta c d0 (.state (c.h stA.metadata.query)) = some m0 ∧ m0.status = ready ∧
+       c.ext m0.typeId = c.ext stA.metadata.typeId ∧
+       (c.dec (c.enc (c.serD stA.metadata.typeId stA.data))).bind (c.deD m0.typeId) = some w ∧
+       FileC.getSplit c (runPrefix n1 l d0) (runPrefix n2 l d0) stA.metadata.query = some { metadata := m0, data := w }) ∧
+    ∀ k', c.h k' ≠ c.h stA.metadata.query →
+      FileC.getSplit c (runPrefix n1 l d0) (runPrefix n2 l d0) k' = FileC.get c d0 k' :=
+  split_writers2 c d0 stA stB okA okB hq hty hdata a1 a2 b1 b2 hdist l hl n1 n2 hn
+
+/-- **corollary (sound initial directory)**: if, in the initial directory, (1) a ready metadata record of the key is backed by a
+readable data file (`hcomplete` — what C16 proves of every directory the writers leave, crash or not), (2) the entry of the key, if
+any, already holds the value the writers store (`hsound` — C05: one key, one value) and (3) its type is the writers' type whenever
+its extension is (`htype`), then the split reader obtains a miss, the old entry, or the complete new entry with A's or B's metadata —
+never a truncated value, never the data of another value.  (Each hypothesis is needed: `file_split_reader_mixed_witness` for (2),
+`file_split_reader_incomplete_witness` for (1); without (3) the new bytes would be decoded by the codec of another type.) -/
+theorem file_split_reader_sound (c : FileCfg) (d0 : CDir) (stA stB : CState) (okA : CodecAt c stA) (okB : CodecAt c stB)
+    (hq : stB.metadata.query = stA.metadata.query) (hty : stB.metadata.typeId = stA.metadata.typeId)
+    (hdata : c.enc (c.serD stB.metadata.typeId stB.data) = c.enc (c.serD stA.metadata.typeId stA.data))
+    (mP : CMeta) (hPq : mP.query = stA.metadata.query) (hPdec : (c.dec (c.enc (c.serM mP))).bind c.deM = some mP)
+    (hPs : mP.status ≠ ready)
+    (a1 a2 b1 b2 tp : Nat) (hdist : [a1, a2, b1, b2, tp].Nodup) (l : List (Step FName))
+    (hl : Interleave3 (storeStepsN c (.tmp a1) (.tmp a2) stA) (storeStepsN c (.tmp b1) (.tmp b2) stB)
+      (storeMetaStepsN c (.tmp tp) mP) l)
+    (hcomplete : ∀ m0, FileC.loadMeta c d0 (.state (c.h stA.metadata.query)) = some m0 → m0.status = ready →
+      ∃ old, FileC.get c d0 stA.metadata.query = some old)
+    (hsound : ∀ old, FileC.get c d0 stA.metadata.query = some old → old.data = stA.data)
+    (htype : ∀ old, FileC.get c d0 stA.metadata.query = some old → c.ext old.metadata.typeId = c.ext stA.metadata.typeId →
+      old.metadata.typeId = stA.metadata.typeId)
+    (n1 n2 : Nat) (hn : n1 ≤ n2) :
+    FileC.getSplit c (runPrefix n1 l d0) (runPrefix n2 l d0) stA.metadata.query = none ∨
+    FileC.getSplit c (runPrefix n1 l d0) (runPrefix n2 l d0) stA.metadata.query = FileC.get c d0 stA.metadata.query ∨
+    FileC.getSplit c (runPrefix n1 l d0) (runPrefix n2 l d0) stA.metadata.query =
+      some { metadata := { stA.metadata with status := ready }, data := stA.data } ∨
+    FileC.getSplit c (runPrefix n1 l d0) (runPrefix n2 l d0) stA.metadata.query =
+      some { metadata := { stB.metadata with status := ready }, data := stA.data } :=
+  (split_writers3 c d0 stA stB okA okB hq hty hdata mP hPq hPdec hPs a1 a2 b1 b2 tp hdist l hl n1 n2 hn).1.sound
+    okA.dataOK hcomplete hsound htype
+
+/-- **split reader, `StoreCache` on a `FileStore`**: under the hypotheses of `tree_writers_progress_harmless`, a reader that reads the
+metadata file of `p` after `n1` file operations and the node after `n2 ≥ n1` obtains a miss, or the complete new entry with A's or
+with B's ready metadata, or what the atomic reader obtains from `t0`, or the ready metadata record `m0` of `t0` with the NEW bytes
+decoded under the type `m0` names (the new value `v` when `m0` names A's type); every other path reads exactly as in `t0`.
+(`tree_writers_serializable` says that for the ATOMIC reader old metadata never meets new data; the split reader is exactly how
+they can meet.) -/
+theorem tree_split_reader (deM : Data → Option CMeta) (deD : Str → Data → Option (Option Str)) (t0 : Tree) (p : Key)
+    (b mbA mbB mbP : Data) (mA mB : CMeta) (v : Option Str)
+    (hMA : deM mbA = some mA) (hAr : mA.status = ready) (hAv : deD mA.typeId b = some v)
+    (hMB : deM mbB = some mB) (hBr : mB.status = ready) (hBv : deD mB.typeId b = some v)
+    (hP : ∀ m, deM mbP = some m → m.status ≠ ready)
+    (a1 a2 b1 b2 tp : Key) (hdist : [a1, a2, b1, b2, tp].Nodup) (l : List (Step SName))
+    (hl : Interleave3 (storeStepsTN (.tmp a1) (.tmp a2) p b mbA) (storeStepsTN (.tmp b1) (.tmp b2) p b mbB)
+      (storeMetaStepsTN (.tmp tp) p mbP) l) (n1 n2 : Nat) (hn : n1 ≤ n2) :
+    (readSCSplit deM deD (runPrefixT n1 l t0) (runPrefixT n2 l t0) p = none ∨
+     readSCSplit deM deD (runPrefixT n1 l t0) (runPrefixT n2 l t0) p = some { metadata := mA, data := v } ∨
+     readSCSplit deM deD (runPrefixT n1 l t0) (runPrefixT n2 l t0) p = some { metadata := mB, data := v } ∨
+     readSCSplit deM deD (runPrefixT n1 l t0) (runPrefixT n2 l t0) p = readSC deM deD t0 p ∨
+     ∃ mb0 m0 w, AL.get t0 (.mfile p) = some (.file mb0) ∧ deM mb0 = some m0 ∧ m0.status = ready ∧
+       deD m0.typeId b = some w ∧ (m0.typeId = mA.typeId → w = v) ∧
+       readSCSplit deM deD (runPrefixT n1 l t0) (runPrefixT n2 l t0) p = some { metadata := m0, data := w }) ∧
+    ∀ p', p' ≠ p → readSCSplit deM deD (runPrefixT n1 l t0) (runPrefixT n2 l t0) p' = readSC deM deD t0 p' := by
+  obtain ⟨h, hfr⟩ := tsplit_writers3 deM deD t0 p b mbA mbB mbP mA mB v hMA hAr hAv hMB hBr hBv hP a1 a2 b1 b2 tp hdist l hl n1 n2 hn
+  refine ⟨?_, hfr⟩
+  rcases h with h | h | h | h | ⟨mb0, m0, w, h1, h2, h3, h4, h5⟩
+  · exact Or.inl h
+  · exact Or.inr (Or.inl h)
+  · exact Or.inr (Or.inr (Or.inl h))
+  · exact Or.inr (Or.inr (Or.inr (Or.inl h)))
+  · refine Or.inr (Or.inr (Or.inr (Or.inr ⟨mb0, m0, w, h1, h2, h3, h4, fun e => ?_, h5⟩)))
+    rw [e, hAv] at h4; exact (Option.some.inj h4).symm
+
+/-- the same for two store writers without a progress writer -/
+theorem tree_split_reader_two (deM : Data → Option CMeta) (deD : Str → Data → Option (Option Str)) (t0 : Tree) (p : Key)
+    (b mbA mbB : Data) (mA mB : CMeta) (v : Option Str)
+    (hMA : deM mbA = some mA) (hAr : mA.status = ready) (hAv : deD mA.typeId b = some v)
+    (hMB : deM mbB = some mB) (hBr : mB.status = ready) (hBv : deD mB.typeId b = some v)
+    (a1 a2 b1 b2 : Key) (hdist : [a1, a2, b1, b2].Nodup) (l : List (Step SName))
+    (hl : Interleave (storeStepsTN (.tmp a1) (.tmp a2) p b mbA) (storeStepsTN (.tmp b1) (.tmp b2) p b mbB) l)
+    (n1 n2 : Nat) (hn : n1 ≤ n2) :
+    (readSCSplit deM deD (runPrefixT n1 l t0) (runPrefixT n2 l t0) p = none ∨
+     readSCSplit deM deD (runPrefixT n1 l t0) (runPrefixT n2 l t0) p = some { metadata := mA, data := v } ∨
+     readSCSplit deM deD (runPrefixT n1 l t0) (runPrefixT n2 l t0) p = some { metadata := mB, data := v } ∨
+     readSCSplit deM deD (runPrefixT n1 l t0) (runPrefixT n2 l t0) p = readSC deM deD t0 p ∨
+     ∃ mb0 m0 w, AL.get t0 (.mfile p) = some (.file mb0) ∧ deM mb0 = some m0 ∧ m0.status = ready ∧
+       deD m0.typeId b = some w ∧
+       readSCSplit deM deD (runPrefixT n1 l t0) (runPrefixT n2 l t0) p = some { metadata := m0, data := w }) ∧
+    ∀ p', p' ≠ p → readSCSplit deM deD (runPrefixT n1 l t0) (runPrefixT n2 l t0) p' = readSC deM deD t0 p' :=
+  tsplit_writers2 deM deD t0 p b mbA mbB mA mB v hMA hAr hAv hMB hBr hBv a1 a2 b1 b2 hdist l hl n1 n2 hn
+
+/-- **corollary (sound initial tree)**: if, in the initial tree, (1) a ready metadata record of `p` is backed by a readable data file
+(C16), (2) the entry at `p`, if any, already holds the value the writers store (C05) and (3) has A's type, then the split reader
+obtains a miss, the old entry, or the complete new entry with A's or B's metadata -/
+theorem tree_split_reader_sound (deM : Data → Option CMeta) (deD : Str → Data → Option (Option Str)) (t0 : Tree) (p : Key)
+    (b mbA mbB mbP : Data) (mA mB : CMeta) (v : Option Str)
+    (hMA : deM mbA = some mA) (hAr : mA.status = ready) (hAv : deD mA.typeId b = some v)
+    (hMB : deM mbB = some mB) (hBr : mB.status = ready) (hBv : deD mB.typeId b = some v)
+    (hP : ∀ m, deM mbP = some m → m.status ≠ ready)
+    (a1 a2 b1 b2 tp : Key) (hdist : [a1, a2, b1, b2, tp].Nodup) (l : List (Step SName))
+    (hl : Interleave3 (storeStepsTN (.tmp a1) (.tmp a2) p b mbA) (storeStepsTN (.tmp b1) (.tmp b2) p b mbB)
+      (storeMetaStepsTN (.tmp tp) p mbP) l)
+    (hcomplete : ∀ mb0 m0, AL.get t0 (.mfile p) = some (.file mb0) → deM mb0 = some m0 → m0.status = ready →
+      ∃ old, readSC deM deD t0 p = some old)
+    (hsound : ∀ old, readSC deM deD t0 p = some old → old.data = v)
+    (htype : ∀ old, readSC deM deD t0 p = some old → old.metadata.typeId = mA.typeId)
+    (n1 n2 : Nat) (hn : n1 ≤ n2) :
+    readSCSplit deM deD (runPrefixT n1 l t0) (runPrefixT n2 l t0) p = none ∨
+    readSCSplit deM deD (runPrefixT n1 l t0) (runPrefixT n2 l t0) p = readSC deM deD t0 p ∨
+    readSCSplit deM deD (runPrefixT n1 l t0) (runPrefixT n2 l t0) p = some { metadata := mA, data := v } ∨
+    readSCSplit deM deD (runPrefixT n1 l t0) (runPrefixT n2 l t0) p = some { metadata := mB, data := v } :=
+  (tsplit_writers3 deM deD t0 p b mbA mbB mbP mA mB v hMA hAr hAv hMB hBr hBv hP a1 a2 b1 b2 tp hdist l hl n1 n2 hn).1.sound
+    hAv hcomplete hsound htype
+
+/-- the test "`p` exists and is not a directory" that `StoreCache._load_metadata` performs before it reads the metadata file,
+evaluated on ANY tree `tC` (any moment), only adds misses -/
+theorem tree_split_guard_only_misses (deM : Data → Option CMeta) (deD : Str → Data → Option (Option Str)) (tC tM tD : Tree) (p : Key) :
+    readSCSplit3 deM deD tC tM tD p = none ∨ readSCSplit3 deM deD tC tM tD p = readSCSplit deM deD tM tD p :=
+  readSCSplit3_cases deM deD tC tM tD p
+
+/-- with one directory / tree the split readers are the atomic readers -/
+theorem split_readers_same (c : FileCfg) (d : CDir) (k : Str) (deM : Data → Option CMeta) (deD : Str → Data → Option (Option Str))
+    (t : Tree) (p : Key) :
+    FileC.getSplit c d d k = FileC.get c d k ∧ readSCSplit deM deD t t p = readSC deM deD t p ∧
+    readSCSplit3 deM deD t t t p = readSC deM deD t p :=
+  ⟨rfl, rfl, readSCSplit3_same deM deD t p⟩
+
+/-! ### non-vacuity and the witnesses -/
+
+/-- an OLD ready record of the key `k` (neither A's nor B's) -/
+def fMetaO : CMeta := { query := ['k'], status := ready, typeId := ['t'], rest := ['o'] }
+
+/-- `fCfg` with a payload `[6]` for the old record -/
+def fCfgO : FileCfg :=
+  { fCfg with
+    serM := fun m => if m = fMetaO then [6] else fCfg.serM m,
+    deM := fun b => if b = [6] then some fMetaO else fCfg.deM b }
+
+def fAO (n1 n2 : Nat) : List (Step FName) := storeStepsN fCfgO (.tmp n1) (.tmp n2) fStA
+def fBO (n1 n2 : Nat) : List (Step FName) := storeStepsN fCfgO (.tmp n1) (.tmp n2) fStB
+
+/-- a complete old entry of the key with ANOTHER value (`[7]`), old metadata -/
+def fOldO : CDir := [(.state ['k'], [6]), (.data ['k'] ['t'], [7])]
+/-- a ready record without a data file -/
+def fOldI : CDir := [(.state ['k'], [6])]
+/-- a complete old entry of the key that already holds the value the writers store -/
+def fOldS : CDir := [(.state ['k'], [6]), (.data ['k'] ['t'], [4, 5]), (.state ['j'], [1]), (.data ['j'] ['t'], [9])]
+
+-- the hypotheses of `file_split_reader` are satisfiable (the writers of the first section, with `fCfgO`)
+example : CodecAt fCfgO fStA ∧ CodecAt fCfgO fStB ∧ fStB.metadata.query = fStA.metadata.query ∧
+    fStB.metadata.typeId = fStA.metadata.typeId ∧
+    fCfgO.enc (fCfgO.serD fStB.metadata.typeId fStB.data) = fCfgO.enc (fCfgO.serD fStA.metadata.typeId fStA.data) ∧
+    [10, 11, 20, 21, 30].Nodup ∧ fMetaP.query = fStA.metadata.query ∧
+    (fCfgO.dec (fCfgO.enc (fCfgO.serM fMetaP))).bind fCfgO.deM = some fMetaP ∧ fMetaP.status ≠ ready :=
+  ⟨⟨by decide, by decide⟩, ⟨by decide, by decide⟩, by decide, by decide, by decide, by decide, by decide, by decide, by decide⟩
+
+/-- **the mixed answer is real** (why `file_split_reader_sound` needs `hsound`): on the complete old entry `fOldO` (value `[7]`),
+under the schedule `fSched` (A: unlink, unlink, create, write — B: unlink, unlink, create — A: close, rename …), a reader that reads
+the metadata file before the first file operation (`n1 = 0`: the old ready record) and the data file after A has published its
+data (`n2 = 9`) is served the OLD metadata with the NEW data — a state that is neither the old entry nor a complete new entry.
+The atomic reader at either moment sees the old entry (`n = 0`) or a miss (`n = 9`). -/
+theorem file_split_reader_mixed_witness :
+    Interleave (fAO 10 11) (fBO 20 21) (merge fSched (fAO 10 11) (fBO 20 21)) ∧
+    FileC.getSplit fCfgO (runPrefix 0 (merge fSched (fAO 10 11) (fBO 20 21)) fOldO)
+      (runPrefix 9 (merge fSched (fAO 10 11) (fBO 20 21)) fOldO) ['k'] =
+      some { metadata := fMetaO, data := some [Char.ofNat 4, Char.ofNat 5] } ∧
+    FileC.get fCfgO fOldO ['k'] = some { metadata := fMetaO, data := some [Char.ofNat 7] } ∧
+    fMetaO ≠ { fStA.metadata with status := ready } ∧ fMetaO ≠ { fStB.metadata with status := ready } ∧
+    FileC.get fCfgO (runPrefix 0 (merge fSched (fAO 10 11) (fBO 20 21)) fOldO) ['k'] = FileC.get fCfgO fOldO ['k'] ∧
+    FileC.get fCfgO (runPrefix 9 (merge fSched (fAO 10 11) (fBO 20 21)) fOldO) ['k'] = none :=
+  ⟨merge_interleave _ _ _, by decide +kernel, by decide +kernel, by decide, by decide, by decide +kernel, by decide +kernel⟩
+
+/-- **why `hcomplete` is needed**: a ready record WITHOUT a data file in the initial directory (the atomic reader: a miss) is
+completed by the writers' data — the split reader is served a state although the initial directory held no entry -/
+theorem file_split_reader_incomplete_witness :
+    FileC.getSplit fCfgO (runPrefix 0 (merge fSched (fAO 10 11) (fBO 20 21)) fOldI)
+      (runPrefix 9 (merge fSched (fAO 10 11) (fBO 20 21)) fOldI) ['k'] =
+      some { metadata := fMetaO, data := some [Char.ofNat 4, Char.ofNat 5] } ∧
+    FileC.get fCfgO fOldI ['k'] = none :=
+  ⟨by decide +kernel, by decide +kernel⟩
+
+-- all answers of the split reader along `fSched` on `fOldO` with the metadata read at `n1 = 0`: the old entry, misses, and the mixed
+-- answer from the moment a writer has published its data
+example : (List.range 21).map (fun n2 => (FileC.getSplit fCfgO (runPrefix 0 (merge fSched (fAO 10 11) (fBO 20 21)) fOldO)
+      (runPrefix n2 (merge fSched (fAO 10 11) (fBO 20 21)) fOldO) ['k']).map (fun st => (st.metadata.rest, st.data))) =
+    [some (['o'], some [Char.ofNat 7])] ++ [some (['o'], some [Char.ofNat 7])] ++ List.replicate 7 none ++
+      List.replicate 12 (some (['o'], some [Char.ofNat 4, Char.ofNat 5])) := by
+  decide +kernel
+
+-- with the metadata read at `n1 = 13` (A's ready record): the complete new entry whenever the data file is read later
+example : (List.range 8).map (fun i => (FileC.getSplit fCfgO (runPrefix 13 (merge fSched (fAO 10 11) (fBO 20 21)) fOldO)
+      (runPrefix (13 + i) (merge fSched (fAO 10 11) (fBO 20 21)) fOldO) ['k']).map (fun st => (st.metadata.rest, st.data))) =
+    List.replicate 8 (some (['a'], some [Char.ofNat 4, Char.ofNat 5])) := by
+  decide +kernel
+
+-- the hypotheses of `file_split_reader_sound` hold for `fOldS` (and the theorem applies: every `n1 ≤ n2`)
+/-- a three-way schedule: A runs to the end, then the progress writer, then B -/
+def fL3 : List (Step FName) :=
+  merge3 [0, 0, 0, 0, 0, 0, 0, 0, 0, 0, 2, 2, 2, 2] (fAO 10 11) (fBO 20 21) (storeMetaStepsN fCfgO (.tmp 30) fMetaP)
+
+example (n1 n2 : Nat) (hn : n1 ≤ n2) :
+    FileC.getSplit fCfgO (runPrefix n1 fL3 fOldS) (runPrefix n2 fL3 fOldS) ['k'] = none ∨
+    FileC.getSplit fCfgO (runPrefix n1 fL3 fOldS) (runPrefix n2 fL3 fOldS) ['k'] =
+      some { metadata := fMetaO, data := some [Char.ofNat 4, Char.ofNat 5] } ∨
+    FileC.getSplit fCfgO (runPrefix n1 fL3 fOldS) (runPrefix n2 fL3 fOldS) ['k'] =
+      some { metadata := fMetaA, data := some [Char.ofNat 4, Char.ofNat 5] } ∨
+    FileC.getSplit fCfgO (runPrefix n1 fL3 fOldS) (runPrefix n2 fL3 fOldS) ['k'] =
+      some { metadata := fMetaB, data := some [Char.ofNat 4, Char.ofNat 5] } := by
+  have hg : FileC.get fCfgO fOldS ['k'] = some { metadata := fMetaO, data := some [Char.ofNat 4, Char.ofNat 5] } := by decide +kernel
+  have h := file_split_reader_sound fCfgO fOldS fStA fStB ⟨by decide, by decide⟩ ⟨by decide, by decide⟩ (by decide) (by decide)
+    (by decide) fMetaP (by decide) (by decide) (by decide) 10 11 20 21 30 (by decide) fL3 (merge3_interleave3 _ _ _ _)
+    (fun m0 _ _ => ⟨_, hg⟩)
+    (fun old h => by
+      have h' : FileC.get fCfgO fOldS ['k'] = some old := h
+      rw [hg] at h'; cases h'; rfl)
+    (fun old h _ => by
+      have h' : FileC.get fCfgO fOldS ['k'] = some old := h
+      rw [hg] at h'; cases h'; rfl)
+    n1 n2 hn
+  have hg' : FileC.get fCfgO fOldS fStA.metadata.query = some { metadata := fMetaO, data := some [Char.ofNat 4, Char.ofNat 5] } := hg
+  rw [hg'] at h
+  exact h
+
+/-- the tree: a complete old entry at `d/k` with ANOTHER value (`[7]`) and the old metadata record `[6]` -/
+def tOldO : Tree :=
+  [(.node [['d']], .dir), (.metaDir [['d']], .dir), (.node tP, .file [7]), (.mfile tP, .file [6])]
+/-- a complete old entry at `d/k` that already holds the value the writers store -/
+def tOldS : Tree :=
+  [(.node [['d']], .dir), (.metaDir [['d']], .dir), (.node tP, .file [4, 5]), (.mfile tP, .file [6]),
+   (.node tJ, .file [9]), (.mfile tJ, .file [1])]
+
+/-- **the mixed answer is real, tree** (why `tree_split_reader_sound` needs `hsound`): on `tOldO`, under `tSched` (A: mkdir, unlink,
+mkdir, create, write — B: mkdir, unlink, mkdir, create — A: close, rename …), metadata read before the first file operation, node
+read after A's `rename` (`n2 = 11`): OLD metadata with NEW data; the atomic reader sees the old entry (`n = 0`) or a miss (`n = 11`) -/
+theorem tree_split_reader_mixed_witness :
+    Interleave (tA 'a' 'b') (tB 'c' 'e') (merge tSched (tA 'a' 'b') (tB 'c' 'e')) ∧
+    readSCSplit fCfgO.deM fCfgO.deD (runPrefixT 0 (merge tSched (tA 'a' 'b') (tB 'c' 'e')) tOldO)
+      (runPrefixT 11 (merge tSched (tA 'a' 'b') (tB 'c' 'e')) tOldO) tP =
+      some { metadata := fMetaO, data := some [Char.ofNat 4, Char.ofNat 5] } ∧
+    readSC fCfgO.deM fCfgO.deD tOldO tP = some { metadata := fMetaO, data := some [Char.ofNat 7] } ∧
+    fMetaO ≠ fMetaA ∧ fMetaO ≠ fMetaB ∧
+    readSC fCfgO.deM fCfgO.deD (runPrefixT 11 (merge tSched (tA 'a' 'b') (tB 'c' 'e')) tOldO) tP = none :=
+  ⟨merge_interleave _ _ _, by decide +kernel, by decide +kernel, by decide, by decide, by decide +kernel⟩
+
+-- the hypotheses of `tree_split_reader_sound` hold for `tOldS` (and the theorem applies: every `n1 ≤ n2`; other paths untouched)
+def tL3 : List (Step SName) :=
+  merge3 [0, 0, 0, 0, 0, 0, 0, 0, 0, 0, 0, 2, 2, 2, 2, 2, 2] (tA 'a' 'b') (tB 'c' 'e') (tPr 'p')
+
+example (n1 n2 : Nat) (hn : n1 ≤ n2) :
+    (readSCSplit fCfgO.deM fCfgO.deD (runPrefixT n1 tL3 tOldS) (runPrefixT n2 tL3 tOldS) tP = none ∨
+     readSCSplit fCfgO.deM fCfgO.deD (runPrefixT n1 tL3 tOldS) (runPrefixT n2 tL3 tOldS) tP =
+       some { metadata := fMetaO, data := some [Char.ofNat 4, Char.ofNat 5] } ∨
+     readSCSplit fCfgO.deM fCfgO.deD (runPrefixT n1 tL3 tOldS) (runPrefixT n2 tL3 tOldS) tP =
+       some { metadata := fMetaA, data := some [Char.ofNat 4, Char.ofNat 5] } ∨
+     readSCSplit fCfgO.deM fCfgO.deD (runPrefixT n1 tL3 tOldS) (runPrefixT n2 tL3 tOldS) tP =
+       some { metadata := fMetaB, data := some [Char.ofNat 4, Char.ofNat 5] }) ∧
+    readSCSplit fCfgO.deM fCfgO.deD (runPrefixT n1 tL3 tOldS) (runPrefixT n2 tL3 tOldS) tJ = readSC fCfgO.deM fCfgO.deD tOldS tJ := by
+  have hg : readSC fCfgO.deM fCfgO.deD tOldS tP = some { metadata := fMetaO, data := some [Char.ofNat 4, Char.ofNat 5] } := by
+    decide +kernel
+  have hP : ∀ m, fCfgO.deM [3] = some m → m.status ≠ ready := fun m h => by
+    have : fCfgO.deM [3] = some fMetaP := by decide
+    rw [this] at h; cases h; decide
+  have h := tree_split_reader_sound fCfgO.deM fCfgO.deD tOldS tP [4, 5] [1] [2] [3] fMetaA fMetaB (some [Char.ofNat 4, Char.ofNat 5])
+    (by decide) (by decide) (by decide) (by decide) (by decide) (by decide) hP
+    (tL 'a') (tL 'b') (tL 'c') (tL 'e') (tL 'p') (by decide) tL3 (merge3_interleave3 _ _ _ _)
+    (fun _ _ _ _ _ => ⟨_, hg⟩)
+    (fun old h => by rw [hg] at h; cases h; rfl)
+    (fun old h => by rw [hg] at h; cases h; rfl)
+    n1 n2 hn
+  rw [hg] at h
+  exact ⟨h, (tree_split_reader fCfgO.deM fCfgO.deD tOldS tP [4, 5] [1] [2] [3] fMetaA fMetaB (some [Char.ofNat 4, Char.ofNat 5])
+    (by decide) (by decide) (by decide) (by decide) (by decide) (by decide) hP
+    (tL 'a') (tL 'b') (tL 'c') (tL 'e') (tL 'p') (by decide) tL3 (merge3_interleave3 _ _ _ _) n1 n2 hn).2 tJ (by decide)⟩
+
+end Liquer.C12
+
+
 -- OBLIGATIONS: Liquer.C12.inst_registry Liquer.C12.good_answer Liquer.C12.oracle_refines Liquer.C12.oracle_frame Liquer.C12.answers_extend_trace Liquer.C12.apply_op_sound Liquer.C12.meta_remove_harmless Liquer.C12.recorded_answer_good Liquer.C12.inv_iff Liquer.C12.fresh_inv Liquer.C12.step_preserves_inv Liquer.C12.env_preserves_inv Liquer.C12.reach_preserves_inv Liquer.C12.schedule_preserves_inv Liquer.C12.schedule_reach Liquer.C12.events_preserve_inv Liquer.C12.events_reach Liquer.C12.cache_sound_every_schedule Liquer.C12.cache_values_fresh Liquer.C12.result_is_solo Liquer.C12.result_is_sequential Liquer.C12.same_query_same_result Liquer.C12.answers_are_finished Liquer.C12.never_serves_unfinished Liquer.C12.metadata_only_is_miss Liquer.C12.evalQO_agrees
 -- OBLIGATIONS: Liquer.C12.file_writers_serializable Liquer.C12.file_writers_serializable_old Liquer.C12.file_writers_progress_harmless Liquer.C12.file_writer_and_progress Liquer.C12.file_steps_link_exact Liquer.C12.file_steps_link_run Liquer.C12.file_merge_iff_interleave Liquer.C12.file_merge3_interleave3 Liquer.C12.file_nested_interleave Liquer.C12.file_shared_tmp_truncates
 -- OBLIGATIONS: Liquer.C12.tree_writers_serializable Liquer.C12.tree_writers_progress_harmless Liquer.C12.tree_writer_and_progress Liquer.C12.tree_steps_link_run Liquer.C12.tree_shared_tmp_truncates
+-- OBLIGATIONS: Liquer.C12.file_split_reader Liquer.C12.file_split_reader_two Liquer.C12.file_split_reader_sound Liquer.C12.tree_split_reader Liquer.C12.tree_split_reader_two Liquer.C12.tree_split_reader_sound Liquer.C12.tree_split_guard_only_misses Liquer.C12.split_readers_same Liquer.C12.file_split_reader_mixed_witness Liquer.C12.file_split_reader_incomplete_witness Liquer.C12.tree_split_reader_mixed_witness
